@@ -26,8 +26,8 @@ META = {
 
 CLOSURES = {'PY': ('PercusYevick', 'PY'), 'HNC': ('HyperNettedChain', 'HNC'),
             'MSA': ('MeanSphericalApproximation', 'MSA'), 'MS': ('MartynovSarkisov', 'MS')}
-GAMMAS = [-1e3, -2.0, -1.0, -0.5, 0.0, 0.5, 1.0, 3.0, 1e3]
-US = [-2.0, -0.3, 0.0, 0.3, 2.0, 1e6]
+GAMMAS = [-1e3, -2.0, -1.0, -0.5, -4e-3, 0.0, 1e-3, 0.5, 1.0, 3.0, 40.0, 1e3]
+US = [-2.0, -0.3, -1e-3, 0.0, 2e-3, 0.3, 2.0, 1e6]
 SIGMAS = [1.0, 1.3, 0.75]
 DR = 0.1
 EPS = np.finfo(float).eps
@@ -238,7 +238,64 @@ def case_linear(rec, c):
                  repro=REPRO % (CLOSURES[cname][0], hc, eps * b, 1.0, 2.0, eps * a))
 
 
-KINDS = {'product': case_product, 'alias': case_alias, 'vectors': case_vectors, 'linear': case_linear}
+def case_rechain(rec, c):
+    """Second call on the same closure object with the *returned array of the first call* as gamma
+    (and a third with the first gamma again): inputs stay unmodified, every value equals the relation
+    evaluated on the snapshot of its input, and a result already handed out equals the relation too."""
+    cname, hc, sigma = c['closure'], c['hc'], c['sigma']
+    C = make(cname, False, hc)
+    r = np.array([0.3 * sigma, sigma - DR, sigma + DR, 1.7 * sigma, 2.9 * sigma, 4.0 * sigma])
+    u = np.array([1e6, 1e6, -0.4, 0.25, -0.05, 0.0]) if hc else np.array([3.0, 1.5, -0.4, 0.25, -0.05, 0.0])
+    g1 = np.array([0.7, -0.3, 0.45, -0.2, 0.1, 0.02])
+    C.potential = u.copy()
+    C.sigma = sigma
+    rec.state()
+    variants = ['inside', 'outside'] if cname == 'MS' else ['inside']
+    with np.errstate(all='ignore'):
+        try:
+            o1 = C.calculate(r.copy(), g1)
+            o1_snap = np.array(o1, dtype=float, copy=True)
+            g2 = o1                                     # the very object that was returned
+            o2 = C.calculate(r.copy(), g2)
+            g2_after = np.array(g2, dtype=float, copy=True)
+            o2_snap = np.array(o2, dtype=float, copy=True)
+            o3 = np.array(C.calculate(r.copy(), g1), dtype=float, copy=True)
+        except Exception as e:
+            rec.fail(c, '%s.calculate raised %s on a repeated call: %s' % (CLOSURES[cname][0], type(e).__name__, str(e)[:80]), tags(cname, 'raises', 'any'))
+            return
+    rec.trans(3)
+    rec.trace()
+    if cname == 'MS' and not np.all(np.isfinite(o1_snap)):
+        rec.count('rechain_ms_nonfinite_skipped')
+        return
+    if not np.array_equal(g2_after, o1_snap, equal_nan=True):
+        rec.fail(c, '%s(hard_core=%s): calculate(r, gamma) overwrote its gamma argument when gamma is the array returned by the previous call: %r -> %r'
+                 % (CLOSURES[cname][0], hc, o1_snap.tolist(), g2_after.tolist()), tags(cname, 'purity', 'any'),
+                 repro=("import numpy as np, pyPRISM\nc = pyPRISM.closure.%s(apply_hard_core=%r); c.sigma = 1.0\nr = np.array([0.5, 1.5, 2.5]); c.potential = np.array([1e6, 0.3, 0.0])\n"
+                        "g = c.calculate(r, np.array([0.7, 0.4, 0.1])); g0 = g.copy(); c.calculate(r, g); print(g0, g)") % (CLOSURES[cname][0], hc))
+        return
+    if not np.array_equal(o3, o1_snap, equal_nan=True):
+        rec.fail(c, '%s(hard_core=%s): the same (r, gamma) evaluated again after another call gives %r, first %r' % (CLOSURES[cname][0], hc, o3.tolist(), o1_snap.tolist()),
+                 tags(cname, 'repeatable', 'any'))
+    ok2 = False
+    for v in variants:
+        w, s_, coremask = ref.ref_closure(cname, hc, r, sigma, o1_snap, u, ms_variant=v)
+        good = True
+        for i in range(len(r)):
+            if abs(r[i] - sigma) < 1e-6:
+                continue
+            if coremask[i]:
+                good = good and (o2_snap[i] == -1.0 - o1_snap[i])
+            else:
+                good = good and same(float(o2_snap[i]), float(w[i]), tol_for(cname, float(o1_snap[i]), float(u[i]), float(w[i])))
+        ok2 = ok2 or good
+    if not ok2 and cname != 'MS':
+        rec.fail(c, '%s(hard_core=%s): second call with the previous result as gamma returns %r, not the relation evaluated on that gamma'
+                 % (CLOSURES[cname][0], hc, o2_snap.tolist()), tags(cname, 'value', 'rechain'))
+    rec.outcome(core.digest([cname, hc, sigma, 'rechain', o2_snap]))
+
+
+KINDS = {'rechain': case_rechain, 'product': case_product, 'alias': case_alias, 'vectors': case_vectors, 'linear': case_linear}
 
 
 def replay(rec, case):
@@ -262,6 +319,7 @@ def run(rec, tier, seed):
                     for alias in (False, True):
                         case_product(rec, {'kind': 'product', 'closure': cname, 'alias': alias, 'hc': hc, 'sigma': sigma})
                     case_alias(rec, {'kind': 'alias', 'closure': cname, 'hc': hc, 'sigma': sigma})
+                    case_rechain(rec, {'kind': 'rechain', 'closure': cname, 'hc': hc, 'sigma': sigma})
                 case_vectors(rec, {'kind': 'vectors', 'closure': cname, 'hc': hc})
                 case_linear(rec, {'kind': 'linear', 'closure': cname, 'hc': hc})
     rec.note('alphabets', {'closures': list(CLOSURES), 'gammas': GAMMAS, 'u': US, 'sigmas': sig,
